@@ -3,14 +3,16 @@
 -/
 import Valida.Rule
 import ValidaProofs.Lemmas.Basic
+import ValidaProofs.Lemmas.C06Schema
 namespace ValidaProofs
 open Valida ValidaGen
+open C06L
 
 def CastFree (rs : List RuleM) : Prop := ∀ r ∈ rs, r.cast = []
 
 /-- the sort keys of `Schema.__init__` and `add_schema` in the source are `len(rule.path)`, ascending -/
 theorem C06_sort_key_in_source : schemaSortKeys = [("__init__", "len_path"), ("add_schema", "len_path")] := by
-  sorry
+  decide
 
 /-- overall validity is the conjunction, the failure count the sum, the tested count the number of
     rules whose path exists -/
@@ -18,7 +20,7 @@ theorem C06_aggregates (v : Validated) :
     v.isValid = v.tests.all (·.isValid) ∧
     v.numFailures = (v.tests.map (fun t => t.failures.length)).sum ∧
     v.numRulesTested = (v.tests.filter (·.tested)).length := by
-  sorry
+  exact ⟨rfl, rfl, List.countP_eq_length_filter⟩
 
 /-- rules are applied shortest path first, ties in the given order (a stable sort): the applied list
     is a permutation of the given one, ascending in path length, and rules of equal path length keep
@@ -27,12 +29,12 @@ theorem C06_sorted_stable (rs : List RuleM) :
     (Schema.mk' rs).Perm rs ∧
     (Schema.mk' rs).Pairwise (fun a b => a.path.parts.length ≤ b.path.parts.length) ∧
     ∀ k, (Schema.mk' rs).filter (fun r => r.path.parts.length == k) = rs.filter (fun r => r.path.parts.length == k) := by
-  sorry
+  exact ⟨mk'_perm rs, mk'_sorted rs, mk'_stable rs⟩
 
 /-- without casts every rule is judged on the document itself, independently of the other rules -/
 theorem C06_castfree_independent (rs : List RuleM) (doc copy : PyVal) (hc : CastFree rs) :
     validateLoop rs doc copy = (rs.mapM (fun r => ruleTestOn r doc)).map (fun ts => (ts, copy)) := by
-  sorry
+  exact validateLoop_castfree rs doc copy hc
 
 /-- order independence: for a cast-free schema, supplying the rules in another order gives a
     permutation of the same rule tests, hence the same validity, failure count and tested count -/
@@ -41,11 +43,20 @@ theorem C06_perm (rs₁ rs₂ : List RuleM) (doc : PyVal) (hp : rs₁.Perm rs₂
     ∃ v₂, validate (Schema.mk' rs₂) doc = .ok v₂ ∧
       v₂.isValid = v₁.isValid ∧ v₂.numFailures = v₁.numFailures ∧ v₂.numRulesTested = v₁.numRulesTested ∧
       v₂.castData = v₁.castData := by
-  sorry
+  have hc₁ : ∀ r ∈ Schema.mk' rs₁, r.cast = [] := fun r hr => hc r ((mk'_perm rs₁).mem_iff.1 hr)
+  have hp' : (Schema.mk' rs₁).Perm (Schema.mk' rs₂) := ((mk'_perm rs₁).trans hp).trans (mk'_perm rs₂).symm
+  have hc₂ : ∀ r ∈ Schema.mk' rs₂, r.cast = [] := fun r hr => hc₁ r (hp'.mem_iff.2 hr)
+  obtain ⟨d, hd, hm, hcd⟩ := (validate_castfree_ok _ doc hc₁ v₁).1 h₁
+  obtain ⟨ts, hts, hpt⟩ := mapM_perm _ hp' _ hm
+  refine ⟨⟨ts, doc⟩, (validate_castfree_ok _ doc hc₂ _).2 ⟨d, hd, hts, rfl⟩, ?_, ?_, ?_, hcd.symm⟩
+  · exact (hpt.all_eq).symm
+  · exact ((hpt.map _).sum_nat).symm
+  · exact (hpt.countP_eq _).symm
 
 /-- a cast-free validation returns the document itself as cast data -/
 theorem C06_castfree_cast_data (rs : List RuleM) (doc : PyVal) (hc : CastFree rs) (v : Validated)
     (h : validate rs doc = .ok v) : v.castData = doc ∧ v.tests.length = rs.length := by
-  sorry
+  obtain ⟨d, _, hm, hcd⟩ := (validate_castfree_ok rs doc hc v).1 h
+  exact ⟨hcd, mapM_ok_len _ _ _ hm⟩
 
 end ValidaProofs
